@@ -34,6 +34,13 @@ class SchedulerStuck(Exception):
     pass
 
 
+CONTENDERS: dict = {}        # thread ident -> Worker whose body that thread is executing
+
+
+def current_worker():
+    return CONTENDERS.get(threading.get_ident())
+
+
 class SchedLock:
     """Stand-in for the class-level threading.Lock while the scheduler is active: a worker that
     cannot get the lock reports `blocked` to the scheduler instead of sleeping inside the C library."""
@@ -42,7 +49,7 @@ class SchedLock:
         self._l = threading.Lock()
 
     def acquire(self, blocking=True, timeout=-1):
-        w = threading.current_thread()
+        w = current_worker()
         waited = 0
         while not self._l.acquire(blocking=False):
             if not blocking:
@@ -91,6 +98,7 @@ class Worker(threading.Thread):
         self.last = None
         self.entered: set = set()
         self.my_ident = None
+        self.thread_obj = None
         self.kept = []
         self.in_guard = False
 
@@ -165,7 +173,14 @@ class Worker(threading.Thread):
         return self.sch.sub_cls() if self.via_subclass else self.sch.store_cls
 
     def run(self):
+        self.body()
+
+    def body(self):
+        """The constructor calls of this contender; executed by the Worker thread itself or — when the contender is
+        played by the MAIN thread — by the main thread while the scheduler runs in a helper thread."""
         self.my_ident = threading.get_ident()
+        self.thread_obj = threading.current_thread()
+        CONTENDERS[self.my_ident] = self
         sys.settrace(self.global_trace)
         try:
             for call in range(self.ncalls):
@@ -206,6 +221,7 @@ class Worker(threading.Thread):
                     self.results.append(f'error:{type(e).__name__}:{e}')
         finally:
             sys.settrace(None)
+            CONTENDERS.pop(self.my_ident, None)
             for ts in self.kept:
                 try:
                     ts.close()
@@ -262,7 +278,7 @@ class Scheduler:
         if o is None:
             return None
         for w in workers:
-            if o is w or o == w.my_ident:
+            if o is w or o is w.thread_obj or o == w.my_ident:
                 return w.wid
         return 'other'
 
@@ -277,7 +293,8 @@ class Scheduler:
             raise SchedulerStuck(f'worker {w.wid} did not come back from step {label}')
         return 'Blocked' if w.blocked else (label or 'Start')
 
-    def run_interleaved(self, calls, close, sched, open_missing=None, via_subclass=None, garbage=None):
+    def run_interleaved(self, calls, close, sched, open_missing=None, via_subclass=None, garbage=None,
+                        main_role=None):
         """calls[i] constructor calls in worker i (all workers alive for the whole run), scheduled by `sched`
         (list of worker indices), then drained round robin.  Returns dict(labels, results, owner, owners_seen)."""
         saved = {k: getattr(self.store_cls, k) for k in self.lock_names}
@@ -307,9 +324,56 @@ class Scheduler:
             if garbage and garbage[w.wid] is not None:
                 w.garbage_call = garbage[w.wid]
         labels, owners = [], []
+        if main_role is not None and threading.current_thread() is threading.main_thread():
+            # contender `main_role` is played by the MAIN thread of the process: the scheduling loop below runs in a
+            # helper thread, and this (main) thread executes that contender's constructor calls under the same tracer
+            box = {}
+
+            def drive():
+                try:
+                    box['out'] = self._drive(workers, sched, labels, owners, main_role)
+                except BaseException as e:  # noqa: BLE001
+                    box['err'] = e
+                    for w in workers:
+                        w.abandoned = True
+                        w.go.set()
+            drv = threading.Thread(target=drive, daemon=True, name='c20-driver')
+            try:
+                drv.start()
+                try:
+                    workers[main_role].body()
+                except SystemExit:
+                    pass
+                drv.join(timeout=STEP_TIMEOUT * 20)
+                if 'err' in box:
+                    raise box['err']
+                if 'out' not in box:
+                    raise SchedulerStuck('the scheduling thread did not finish')
+                return box['out']
+            finally:
+                self._restore(saved, orig_lock, orig_rlock, workers)
         try:
+            return self._drive(workers, sched, labels, owners, None)
+        finally:
+            self._restore(saved, orig_lock, orig_rlock, workers)
+
+    def _restore(self, saved, orig_lock, orig_rlock, workers):
+        threading.Lock, threading.RLock = orig_lock, orig_rlock
+        for k, v in saved.items():
+            setattr(self.store_cls, k, v)
+        self.reset_lazy()
+        self.store_cls.active_in_thread = None
+        for w in workers:                      # never leave a worker waiting for the scheduler
+            if not w.finished:
+                w.abandoned = True
+                w.go.set()
+
+    def _drive(self, workers, sched, labels, owners, main_role):
+        if True:
             for w in workers:
-                w.start()
+                if w.wid != main_role:
+                    w.start()
+            for w in workers:
                 if not w.arrived.wait(timeout=STEP_TIMEOUT):
                     raise SchedulerStuck(f'worker {w.wid} never reached the guard')
             trace = []
@@ -327,19 +391,10 @@ class Scheduler:
                 raise SchedulerStuck('workers still running after the drain rounds')
             owner = self.owner_wid(workers)
             for w in workers:
-                w.join(timeout=STEP_TIMEOUT)
+                if w.wid != main_role:
+                    w.join(timeout=STEP_TIMEOUT)
             return {'labels': labels, 'results': [w.results for w in workers], 'owner': owner,
                     'owners_seen': owners, 'trace': trace}
-        finally:
-            threading.Lock, threading.RLock = orig_lock, orig_rlock
-            for k, v in saved.items():
-                setattr(self.store_cls, k, v)
-            self.reset_lazy()
-            self.store_cls.active_in_thread = None
-            for w in workers:                      # never leave a worker waiting for the scheduler
-                if not w.finished:
-                    w.abandoned = True
-                    w.go.set()
 
     def run_sequential_exit(self, calls, close):
         """Thread i runs all its calls and EXITS before thread i+1 is started (no tracing)."""
@@ -554,6 +609,18 @@ def gen_cases(chk: Check, guard):
         for w in words(2, 12):
             cases.append({'kind': 'interleave', 'calls': [2, 1], 'close': [True, True], 'sched': w,
                           'exhaustive': True})
+    # the MAIN thread of the process as one of the two racing contenders (its identity is just another thread id for the
+    # model; code that treats the main thread specially shows here): every schedule word with the main thread as
+    # contender 0, sampled words with it as contender 1, and more calls
+    if guard is not None:
+        for w in words(2, 2 * per_call):
+            cases.append({'kind': 'interleave', 'calls': [1, 1], 'close': [True, True], 'sched': w, 'main_role': 0,
+                          'exhaustive': True})
+    for _ in range(chk.n(100, 1000)):
+        calls = rng.choice([[1, 1], [1, 1], [2, 1], [1, 2]])
+        cases.append({'kind': 'interleave', 'calls': calls, 'close': [rng.random() < 0.5 for _ in calls],
+                      'sched': [rng.randrange(2) for _ in range(rng.randint(0, (per_call + 1) * sum(calls)))],
+                      'main_role': rng.randrange(2)})
     # stores made through a (trivial) subclass of TrajectoryStore, by one thread, the other, or both: the first store
     # of the process through the subclass then a plain one from another thread, and the reverse; also interleaved
     for via in ([True, False], [False, True], [True, True]):
@@ -604,7 +671,7 @@ def check_cases(chk: Check, cases, guard):
             continue
         try:
             if c['kind'] == 'interleave':
-                outs.append(sch.run_interleaved(c['calls'], c['close'], c['sched'], c.get('open_missing'), c.get('via_subclass'), c.get('garbage')))
+                outs.append(sch.run_interleaved(c['calls'], c['close'], c['sched'], c.get('open_missing'), c.get('via_subclass'), c.get('garbage'), c.get('main_role')))
             elif c['kind'] == 'main_first':
                 outs.append(sch.run_main_first(c['calls'], c['close']))
             else:
@@ -622,7 +689,7 @@ def check_cases(chk: Check, cases, guard):
         if out is None:
             continue
         distinct_threads_step = len({t for t in c['sched'][:4]}) > 1
-        chk.case({k: c.get(k) for k in ('kind', 'calls', 'close', 'sched', 'open_missing', 'via_subclass', 'garbage')},
+        chk.case({k: c.get(k) for k in ('kind', 'calls', 'close', 'sched', 'open_missing', 'via_subclass', 'garbage', 'main_role')},
                  nontrivial=(c['kind'] == 'interleave' and distinct_threads_step) or c['kind'] != 'interleave')
         chk.count('kind:' + c['kind'] + (':exhaustive' if c.get('exhaustive') else ''))
         chk.count(f'threads:{len(c["calls"])}')
